@@ -1,5 +1,5 @@
 (* C01 Dispatch: a route is chosen iff one admits the path, by the documented priority. *)
-Require Import Base Regex RegexProofs Route Tree TreeProofs TreeWf TreeAdd TreeComplete TreeDispatch Router RouterProofs RouteSpec.
+Require Import Base Regex RegexProofs Route Tree TreeProofs TreeWf TreeAdd TreeComplete TreeDispatch Router RouterProofs RouteSpec Parser GoodParsed.
 
 (* Proved (soundness half of "iff", for every tree whatsoever, every path, every header predicate):
    whatever the matcher returns is a registered root-to-leaf path of the tree that admits the
@@ -39,6 +39,18 @@ Theorem C01_dispatch_iff : forall compile (good : list elem -> Prop),
    exists rid r l ks ps, In (rid, r) rs /\ forms compile r = Some l /\ In ks l /\ adm ks segs ps /\ hdr_ok rid = true).
 Proof. intros compile good G0 Inj. exact (dispatch_iff compile good G0 Inj). Qed.
 
+(* the same for routes the parser produced - no hypothesis left (the class of parser output, C06_exact,
+   satisfies [good]) *)
+Theorem C01_dispatch_iff_parsed : forall compile hdr_ok rs t segs,
+  (forall rid r, In (rid, r) rs -> exists s, parse s = Some r) ->
+  reg_all compile empty rs = Some t ->
+  (mtree hdr_ok t segs <> None <->
+   exists rid r l ks ps, In (rid, r) rs /\ forms compile r = Some l /\ In ks l /\ adm ks segs ps /\ hdr_ok rid = true).
+Proof.
+  intros compile hdr_ok rs t segs P. apply (dispatch_iff compile pgood pgood_nil pgood_inj).
+  intros rid r HIn. destruct (P rid r HIn) as [s Hs]. exact (parsed_good s r Hs).
+Qed.
+
 (* ... and the route returned is one of the admitting ones, with the values its pattern captures *)
 Theorem C01_dispatch_sound_registered : forall compile (good : list elem -> Prop),
   good [] -> (forall a b, good a -> good b -> render_elems a = render_elems b -> a = b) ->
@@ -77,6 +89,7 @@ Example C01_example :
   | None => False end.
 Proof. vm_compute. split; reflexivity. Qed.
 
+Redirect "assum/C01.9" Print Assumptions C01_dispatch_iff_parsed.
 Redirect "assum/C01.1" Print Assumptions C01_dispatch_sound.
 Redirect "assum/C01.2" Print Assumptions C01_serve_sound.
 Redirect "assum/C01.3" Print Assumptions C01_regex_exact.
